@@ -226,13 +226,29 @@ F13Shape(c, r) ==
                   /\ \E x \in Range(e.reply.answers) : Key(x) = Key(res.rrs[i])
                   /\ \E x \in Range(e.reply.answers) : x.type = "CNAME" /\ x.target = res.rrs[i].name
 
+\* Known finding F16 (C10, forwarding mode): the forwarder's answer section is taken over unexamined and appended to
+\* the local / cached chain that led to the forwarded question, so an answer section that runs in a circle or branches
+\* comes back as it is: repeated records, an alias followed twice.  Recognised by its shape so that any other C10
+\* violation is still reported: forwarding mode; the tail of the result is, record for record, the answer section of
+\* one forwarder reply of this run; and what precedes it is a proper (partial) chain from the question name.
+F16Shape(c, r) ==
+    /\ c.mode = "forwarding" /\ Len(r.exchanges) > 0 /\ r.result.kind = "NonAuthoritative"
+    /\ ~ChainOk(Q(r), r.result.rrs)
+    /\ \E i \in DOMAIN r.exchanges :
+          LET ans == r.exchanges[i].reply.answers
+              n == Len(r.result.rrs)
+              m == Len(ans)
+          IN /\ r.exchanges[i].reply.kind = "msg" /\ m > 0 /\ m <= n
+             /\ \A j \in 1..m : Key(r.result.rrs[n - m + j]) = Key(ans[j])
+             /\ ChainOk(Q(r), SubSeq(r.result.rrs, 1, n - m))
+
 Say(ok, i, k, why) == IF ok THEN TRUE ELSE PrintT(<<"REJECT", i, k, why>>)
 
 Check(i) ==
     LET c == Rec[i] IN
     \A k \in DOMAIN c.runs :
         /\ Say(C01OK(c, c.runs[k]), i, k, IF F13Shape(c, c.runs[k]) THEN "C01:F13" ELSE "C01")
-        /\ Say(C10OK(c, c.runs[k]), i, k, "C10")
+        /\ Say(C10OK(c, c.runs[k]), i, k, IF F16Shape(c, c.runs[k]) THEN "C10:F16" ELSE "C10")
         /\ Say(C08OK(c, k), i, k, "C08")
         /\ Say(C18OK(c, k), i, k, "C18")
         /\ (c.has_universe => Say(C07OK(c, k), i, k, "C07"))
